@@ -24,6 +24,7 @@ from mc import clientenv as CE, refcip as R, sim
 
 ID = "C13"
 LEVEL = "fault_enumeration"
+ISOLATE_SHARDS = True        # every shard runs in a forked child of a pristine worker (mc/core.py)
 RULE = ("fault-free run of 5 distinguishable operations (reads of distinct values, a write, its read-back) recorded per "
         "(subject, bundling, scheduling); then one real client run per fault: every byte offset of the reply stream x {EOF, "
         "silence-until-timeout} x {whole, byte-wise delivery}, every byte offset of the request stream x {later sends vanish, "
@@ -610,3 +611,9 @@ def replay(case):
         return [m for _, m in bad]
     bad, _ = run_poll(case["mult"], [dict(p) for p in case["plans"]])
     return [m for _, m in bad]
+
+
+def preload():
+    """import the code under test once in the (pristine) worker; shard children are forked from it"""
+    from mc import sim as _sim
+    _sim.mods()
